@@ -17,11 +17,32 @@ import (
 	"strconv"
 	"strings"
 	"testing/fstest"
+	"unicode/utf8"
 
 	"github.com/Dash-Industry-Forum/livesim2/cmd/livesim2/app"
 	"github.com/Eyevinn/mp4ff/mp4"
 	"verifharness/lib"
 )
+
+// coqStr quotes a Go string as a Coq string literal. Valid UTF-8 passes through byte for byte (a Coq
+// string is the list of the bytes of the literal, and Go compares and sorts strings bytewise too), so
+// non-ASCII representation ids and asset paths reach the model unchanged.
+func coqStr(s string) string {
+	var sb strings.Builder
+	sb.WriteString("\"")
+	for _, r := range s {
+		switch {
+		case r == '"':
+			sb.WriteString("\"\"")
+		case r < 32 || r == 127 || r == utf8.RuneError:
+			sb.WriteString("?")
+		default:
+			sb.WriteRune(r)
+		}
+	}
+	sb.WriteString("\"")
+	return sb.String()
+}
 
 func optZ(v *uint32) string {
 	if v == nil {
@@ -104,7 +125,7 @@ func repTerm(fsys fs.FS, asset string, as asSpec, r repSpec) string {
 	_ = fs.WalkDir(fsys, asset, func(p string, d fs.DirEntry, err error) error {
 		if err == nil && !d.IsDir() && (strings.HasSuffix(p, "init.mp4") || p == pathJoin(asset, initURI)) {
 			o, _ := initObs(fsys, p)
-			inits = append(inits, fmt.Sprintf("(%s, %s)", lib.CoqString(strings.TrimPrefix(p, asset+"/")), o))
+			inits = append(inits, fmt.Sprintf("(%s, %s)", coqStr(strings.TrimPrefix(p, asset+"/")), o))
 		}
 		return nil
 	})
@@ -164,8 +185,8 @@ func repTerm(fsys fs.FS, asset string, as asSpec, r repSpec) string {
 	return fmt.Sprintf("{| m_id := %s; m_ctype := %s; m_as_codecs := %s; m_rep_codecs := %s; m_inituri := %s; m_mediauri := %s; "+
 		"m_timescale := %s; m_timeline := %s; m_startnr := %s; m_endnr := %s; m_duration := %s; m_init_at := %s; "+
 		"m_files := [%s]; m_tfiles := tfiles_of [%s] |}",
-		lib.CoqString(r.ID), lib.CoqString(as.ContentType), lib.CoqString(as.Codecs), lib.CoqString(r.Codecs),
-		lib.CoqString(initURI), lib.CoqString(mediaURI), optZ(as.StTimescale), timeline, optZ(as.StartNr), optZ(as.EndNr),
+		coqStr(r.ID), coqStr(as.ContentType), coqStr(as.Codecs), coqStr(r.Codecs),
+		coqStr(initURI), coqStr(mediaURI), optZ(as.StTimescale), timeline, optZ(as.StartNr), optZ(as.EndNr),
 		optZ(as.Duration), iobs, strings.Join(files, "; "), strings.Join(tfiles, "; "))
 }
 
@@ -191,7 +212,7 @@ func mpdListTerm(fsys fs.FS, ls []layout) string {
 						reps = append(reps, fmt.Sprintf("(%s, %s)", lib.Cbool(r.RepTemplate), repTerm(fsys, l.Asset, as, r)))
 					}
 					sets = append(sets, fmt.Sprintf("{| as_has_template := %s; as_ctype := %s; as_reps := [%s] |}",
-						lib.Cbool(!as.NoTemplate), lib.CoqString(as.ContentType), strings.Join(reps, ";\n    ")))
+						lib.Cbool(!as.NoTemplate), coqStr(as.ContentType), strings.Join(reps, ";\n    ")))
 				}
 				ctor := "MOk"
 				switch m.Kind {
@@ -202,7 +223,7 @@ func mpdListTerm(fsys fs.FS, ls []layout) string {
 				}
 				obs = "(" + ctor + " [" + strings.Join(sets, ";\n   ") + "])"
 			}
-			ents = append(ents, ent{l.Asset + "/" + m.Name, fmt.Sprintf("(%s, %s, %s)", lib.CoqString(l.Asset), lib.CoqString(m.Name), obs)})
+			ents = append(ents, ent{l.Asset + "/" + m.Name, fmt.Sprintf("(%s, %s, %s)", coqStr(l.Asset), coqStr(m.Name), obs)})
 		}
 	}
 	// fs.WalkDir visits directory entries in lexical order, level by level
@@ -251,8 +272,8 @@ func (s storedJSON) term() string {
 	}
 	return fmt.Sprintf("{| s_id := %s; s_ctype := %s; s_codecs := %s; s_mpdts := %d; s_mediats := %d; s_inituri := %s; s_mediauri := %s; "+
 		"s_segs := [%s]; s_dsd := %d; s_const := %s; s_preenc := %s |}",
-		lib.CoqString(s.ID), lib.CoqString(s.ContentType), lib.CoqString(s.Codecs), s.MpdTimescale, s.MediaTimescale,
-		lib.CoqString(s.InitURI), lib.CoqString(s.MediaURI), strings.Join(segs, "; "), s.DefaultSampleDuration,
+		coqStr(s.ID), coqStr(s.ContentType), coqStr(s.Codecs), s.MpdTimescale, s.MediaTimescale,
+		coqStr(s.InitURI), coqStr(s.MediaURI), strings.Join(segs, "; "), s.DefaultSampleDuration,
 		optZ(s.ConstantSampleDuration), lib.Cbool(s.PreEncrypted))
 }
 
@@ -338,7 +359,7 @@ func cacheTerm(dir string, ls []layout) string {
 		if kind == "absent" {
 			continue
 		}
-		ts = append(ts, fmt.Sprintf("(%s, %s, %s)", lib.CoqString(k[0]), lib.CoqString(k[1]), cobsTerm(kind, s)))
+		ts = append(ts, fmt.Sprintf("(%s, %s, %s)", coqStr(k[0]), coqStr(k[1]), cobsTerm(kind, s)))
 	}
 	return "[" + strings.Join(ts, ";\n  ") + "]"
 }
@@ -352,9 +373,9 @@ func cacheAfterTerm(dir string, ls []layout) string {
 		kind, s := cacheObs(dir, k[0], k[1])
 		switch kind {
 		case "absent":
-			ts = append(ts, fmt.Sprintf("(%s, %s, None)", lib.CoqString(k[0]), lib.CoqString(k[1])))
+			ts = append(ts, fmt.Sprintf("(%s, %s, None)", coqStr(k[0]), coqStr(k[1])))
 		case "data":
-			ts = append(ts, fmt.Sprintf("(%s, %s, Some %s)", lib.CoqString(k[0]), lib.CoqString(k[1]), s.term()))
+			ts = append(ts, fmt.Sprintf("(%s, %s, Some %s)", coqStr(k[0]), coqStr(k[1]), s.term()))
 		}
 	}
 	return "[" + strings.Join(ts, ";\n  ") + "]"
@@ -375,17 +396,17 @@ func assetsTerm(as []app.VerifC15Asset) string {
 			}
 			reps = append(reps, fmt.Sprintf("{| or_id := %s; or_ctype := %s; or_codecs := %s; or_mpdts := %s; or_mediats := %s; "+
 				"or_inituri := %s; or_mediauri := %s; or_segs := [%s]; or_dsd := %d; or_const := %s; or_preenc := %s |}",
-				lib.CoqString(r.ID), lib.CoqString(r.ContentType), lib.CoqString(r.Codecs), lib.Zs(int64(r.MpdTimescale)),
-				lib.Zs(int64(r.MediaTimescale)), lib.CoqString(r.InitURI), lib.CoqString(r.MediaURI), strings.Join(segs, "; "),
+				coqStr(r.ID), coqStr(r.ContentType), coqStr(r.Codecs), lib.Zs(int64(r.MpdTimescale)),
+				lib.Zs(int64(r.MediaTimescale)), coqStr(r.InitURI), coqStr(r.MediaURI), strings.Join(segs, "; "),
 				r.DefaultSampleDuration, c, lib.Cbool(r.PreEncrypted)))
 		}
 		var mpds []string
 		for _, m := range a.MPDs {
-			mpds = append(mpds, lib.CoqString(m))
+			mpds = append(mpds, coqStr(m))
 		}
 		ats = append(ats, fmt.Sprintf("{| oa_path := %s; oa_mpds := [%s]; oa_segdur := %s; oa_loop := %s; oa_ref := %s; oa_reps := [%s] |}",
-			lib.CoqString(a.AssetPath), strings.Join(mpds, "; "), lib.Zs(int64(a.SegmentDurMS)), lib.Zs(int64(a.LoopDurMS)),
-			lib.CoqString(a.RefRep), strings.Join(reps, ";\n    ")))
+			coqStr(a.AssetPath), strings.Join(mpds, "; "), lib.Zs(int64(a.SegmentDurMS)), lib.Zs(int64(a.LoopDurMS)),
+			coqStr(a.RefRep), strings.Join(reps, ";\n    ")))
 	}
 	return "[" + strings.Join(ats, ";\n   ") + "]"
 }
